@@ -950,7 +950,9 @@ class C11(Check):
             for st in resp["steps"]:
                 for a in (st.get("arr") or []):
                     if isinstance(a.get("bufs"), list): a["bufs"] = sum(1 for b in a["bufs"] if b)
+                    if isinstance(a.get("flows"), list): a["flows"] = sorted(a["flows"])      # (the table's order among equal priorities is open)
                 if isinstance(st.get("bufs"), list): st["bufs"] = sum(1 for b in st["bufs"] if b)
+                if isinstance(st.get("flows"), list): st["flows"] = sorted(st["flows"])
         return resp
 
     def impl_view(self, case, obs):
@@ -959,13 +961,13 @@ class C11(Check):
             if st["k"] == "rx":
                 arr = []
                 for a in st["arr"]:
-                    d = {"sw": a["sw"], "port": a["port"], "pin": a["pin"], "stuck": 0, "out": a["out"], "flows": a["flows"], "bufs": sum(1 for b in a["bufs"] if b)}
+                    d = {"sw": a["sw"], "port": a["port"], "pin": a["pin"], "stuck": 0, "out": a["out"], "flows": sorted(a["flows"]), "bufs": sum(1 for b in a["bufs"] if b)}
                     if a.get("exc"): d["exc"] = a["exc"]             # an exception escaping the real loop has no model counterpart
                     if a.get("errs"): d["errs"] = a["errs"]
                     arr.append(d)
                 steps.append({"k": "rx", "arr": arr})
             elif st["k"] == "sweep":
-                d = {"k": "sweep", "flows": st["flows"]}
+                d = {"k": "sweep", "flows": sorted(st["flows"])}
                 if st["noise"]: d["noise"] = st["noise"]        # a sweep that emits frames or packet-ins has no model counterpart
                 steps.append(d)
             else:
